@@ -11,3 +11,4 @@ import Woodpile.Props.C05
 import Woodpile.Props.C10
 import Woodpile.Proofs.IovecFrame
 import Woodpile.Props.C20
+import Woodpile.Proofs.IovecArena
